@@ -12,6 +12,7 @@ DRIVER_ROOT = "Comb"
 PROCS = 1  # a case takes ~1 ms: forking a pool costs more than it saves, and one process lets impl / model_request share the run
 THEOREMS = [
     "C10.seq_one_live",
+    "C10.seq_one_live_catch_handler",
     "C10.seq_next_after_terminal",
     "C10.seq_output_concat",
     "C10.repeat_n_subscribes_n",
@@ -30,12 +31,19 @@ ASSUMPTIONS = ["single-threaded / virtual-time execution: one run is one list of
                "sources do not notify synchronously inside subscribe",
                "do_while is compared with its two nested scheduler hops collapsed into one (no dispose is placed between them)"]
 TRUSTED_EXTRA = ["the logging sources / tap of harness/props/comb_common.py as measuring instruments"]
-LEVEL_TEXT = ("Lean theorems over the trace machine of concat_with_iterable_/catch_with_iterable_/on_error_resume_next_ (SerialDisposables, is_disposed, the "
-              "scheduler hop as an explicit event) and catch_handler, for every source iterator (yield / StopIteration / raise per position) and every list of "
-              "events: at most one live source subscription in every reachable state; source k+1 is subscribed only by the scheduled action that the "
-              "continuing terminal of the live source k armed; output = the accepted elements, source ids non-decreasing; repeat(n) subscribes exactly n "
-              "times when the output completes, retry(n) at most n times and never after a completion. Tied to /repo by replaying recorded event lists.")
-LEVEL_NOTE = "see the final report; partial theorems are named _partial"
+LEVEL_TEXT = ("Lean theorems (induction over arbitrary event lists, no bounds) on the trace machine of concat/catch/on_error_resume_next (+ repeat, retry, while_do, do_while, "
+"start_with, for_in as instances, catch(handler) separately): at most one source subscription live in every reachable state; a source is subscribed only by the scheduled "
+"action that the continuing terminal of the previous (then closed) source armed; output = delivered elements in non-decreasing source order; repeat(n) subscribes exactly n "
+"times when the output completes, retry(n) at most n times and never after a completion. The machine is tied to /repo on every run by replaying the recorded event "
+"list of thousands of generated real runs (TestScheduler, logged cold/hot sources) and comparing timed outputs and subscribe/unsubscribe effects in same-instant order, "
+"plus an oracle written from the property text.")
+LEVEL_NOTE = ("Model = RxModel/Comb.lean (uniform event rule, disposable plumbing as the ordered list of live subscriptions) + RxModel/CombSeq.lean "
+"(concat_with_iterable_/catch_with_iterable_/on_error_resume_next_ as one machine with three kinds, the scheduler hop as an explicit `tick` event, "
+"is_disposed/cancelable as `done`; catch_handler separately). All seven theorems are full-strength (any source iterator incl. raising factories, any "
+"event list incl. dispose anywhere); 'in the same virtual instant' is not a Lean statement (the machine has no clock) - it is checked by the "
+"correspondence, which compares effect times. seq_output_concat states output = delivered elements with non-decreasing source ids (the grouping into "
+"per-source blocks is that sortedness). do_while is the concat machine with items = source, then while-loop; its two nested zero-delay hops are compared "
+"collapsed into one. Not modelled: sources that notify synchronously inside subscribe; futures as sources. Trusted: logging sources/tap, the event-list replay.")
 
 LIST_OPS = ["concat", "ops_concat", "catch", "ops_catch_obs", "oern", "ops_oern", "start_with", "for_in", "catch_handler"]
 LOOP_OPS = ["repeat", "retry", "while_do", "do_while"]
@@ -59,7 +67,7 @@ def kind_of(op):
 
 
 def cases(rng, tier):
-    n = fw.tier_scale(tier, 3000, 30000)
+    n = fw.tier_scale(tier, 3000, 60000)
     for i in range(n):
         op = OPS[i % len(OPS)]
         kind = kind_of(op)
